@@ -47,6 +47,10 @@ CHECKS = {
              "Exploration over staging states x working trees (added/edited/identically rewritten/touched/deleted files, removed directories, depth <= 4) with and without .goitignore."),
     "C14": C(SM + "oracle: parent chain from an independent commit decoder vs parsed log output for drawn -n; metamorphic independence from index/working tree/other branches",
              "Exploration over histories of length 1..16 (quick) / 1..50 (thorough) with resets, branches and shared commits, and k in {absent,0,1,2,len-1,len,len+1,1000}."),
+    "C15": C("crash-point enumeration by fault injection: every os.* call site of a scratch copy is rewritten to a numbering shim (tools/osrewrite + shim/vos); for every (state, command) of a corpus every modification k is a kill point; random states (rapid) in the thorough tier; oracle: read-only commands load as before or after, independent fsck, branch value in {before, fault-free result under a frozen clock}",
+             "Fault enumeration: all kill points between file-system modifications of every modifying command over 11 hand-picked states (quick) plus generated histories (thorough); one open finding (branch rename window) is matched by (command, file class, operation window, symptom) and excluded, anything else is a violation."),
+    "C16": C("single-fault enumeration by fault injection with the same shim: the k-th create/open/read/readdir/write/mkdir/rename/remove fails with EIO/ENOSPC/EACCES (short writes for ENOSPC); oracle: success implies the byte-identical fault-free result (frozen clock), otherwise exit 1 without panic, independent fsck, no branch advanced to a commit other than the fault-free one",
+             "Fault enumeration: every single-fault position of every command (modifying and read-only parts) over the corpus states (quick) plus generated histories (thorough); stat calls are never faulted."),
     "C17": C(SM + "oracle: invariant over the staging area after every command (no path inside .goit, none excluded by .goitignore), completeness of add, status listing, Goit's own files unchanged by reset/restore",
              "Exploration over working trees with ignorable directories/extensions, argument forms of add ('.', parent directory, the ignored path, .goit paths), with and without .goitignore."),
     "C18": C("grammar-based fuzzing of command lines (rapid) over all sub-commands x flags x argument classes against states reached by random prefixes; oracle: exit status in {0,1}, no panic text, confirmed time limit, byte-identical state for invalid-by-construction lines",
@@ -58,4 +62,4 @@ CHECKS = {
 }
 
 _pending = "check not built yet in this session (planned; see DESIGN.md section 4)"
-NOT_APPLICABLE = {k: _pending for k in ("C15", "C16")}
+NOT_APPLICABLE = {}
